@@ -753,7 +753,12 @@ class _Reader:
         if c.tag == tt("set"):
           raise Unsupported("set-on-br")
       if parent_seq:
-        raise Unsupported("br-in-seq")
+        # TTML2 12.4 / SMIL: in a sequential parent the implicit duration of br is zero, so it is never shown and the
+        # children after it still begin at the same syncbase (timing attributes do not apply to br)
+        self.info.classes.add("br-in-seq")
+        a.begin = sync if sync != 0 else None
+        a.end = sync
+        return a, sync, sync
       return a, sync, None     # indefinite in a parallel container
 
     b, dur, end = self.times_of(x)
@@ -818,7 +823,8 @@ class _Reader:
         if seq:
           if not blocked:
             el, cb, ce = self.content(c, ck, True, cur, a.lang, a.space)
-            a.children.append(el)
+            if ck != "Br":       # a br in a sequence has an empty interval: never presented (AbsEl carries no times for br)
+              a.children.append(el)
             if ce is None:
               blocked = True
               implicit = None
